@@ -75,6 +75,10 @@ func c04(c *Check) {
 
 	c.Rule("C04/failing-hook-fails-the-call", "CallEVMWithData: a post-transaction hook error (e.g. a failing SendPacket) marks the response failed and the failure test is evaluated after the hook, so a failing send fails the enclosing call (shared with C03)", 4)
 	evmHookRule(c, "C04/failing-hook-fails-the-call")
+	c.Rule("C04/receive-callback-on-cache-context", "the destination callback of a received packet (which may itself send a forwarded packet) runs on the cache context of the msg server: a send that fails inside it leaves no trace (shared with C03/cache-discipline)", 1)
+	for _, cs := range c.Calls(c.F(xibcK+"Keeper.RecvPacket"), "keeper.(Keeper).CallPacket") {
+		c.ArgIs(cs, "C04/receive-callback-on-cache-context", "onRecvPacket.ctx", msM, 1, "{CC}#0")
+	}
 	c.Rule("C04/hook-sees-every-log", "the packet hook reaches a successful end only after the loop over the receipt's logs: a PacketSent event behind another event of the same transaction is still committed", 1)
 	allLogsProcessed(c, "C04/hook-sees-every-log", pkKeeper+"Hooks.PostTxProcessing")
 
